@@ -10,9 +10,11 @@ use lace::debugger::VerifTerminal;
 use lace::VerifKey;
 use serde_json::{json, Value};
 
-pub const ALPHABET: [Key; 14] = [
+pub const ALPHABET: [Key; 15] = [
     Key::Char('a'),
     Key::Char(' '),
+    // white space that is not the plain space (U+3000, 3 bytes): a line of it is blank too
+    Key::Char('\u{3000}'),
     Key::Char(';'),
     Key::Char('é'),
     Key::Char('𝄞'),
@@ -275,7 +277,7 @@ pub fn run(ctx: &Ctx) -> i32 {
     let raw_transitions = stats_raw.transitions;
     acc.merge(acc_raw);
 
-    let rule = "BFS over key histories (14-key alphabet incl. 2-byte and 4-byte characters, every editing key, Enter) from 3 initial histories (empty, two entries incl. multi-byte and ';', one with a blank entry as an externally written history file can contain); each transition replays the history on a fresh real Terminal through its read() and on the reference editor; distinct_nontrivial counts transitions whose real and reference views agreed (each is a distinct history)";
+    let rule = "BFS over key histories (15-key alphabet incl. 2-byte, 3-byte (the white-space character U+3000) and 4-byte characters, every editing key, Enter) from 3 initial histories (empty, two entries incl. multi-byte and ';', one with a blank entry as an externally written history file can contain); each transition replays the history on a fresh real Terminal through its read() and on the reference editor; distinct_nontrivial counts transitions whose real and reference views agreed (each is a distinct history)";
     finish(
         ctx,
         acc,
